@@ -465,8 +465,8 @@ Proof.
   intros F Hc. destruct o; cbn [step] in Hc.
   - apply G_same. eapply on_new_worker_same; exact Hc.
   - destruct (find_proc _ w); [|discriminate]. eapply G_on_remove_worker; eassumption.
-  - eapply G_submit_array; eassumption.
-  - destruct (bad_graph_rq _ _); [inversion Hc; subst; apply G_same; reflexivity|]. eapply G_submit_graph; eassumption.
+  - destruct (bad_submit_lengths _ _); [inversion Hc; subst; apply G_same; reflexivity|]. eapply G_submit_array; eassumption.
+  - destruct (bad_graph_rq _ _); [inversion Hc; subst; apply G_same; reflexivity|]. destruct (dead_dep _ _ _); [inversion Hc; subst; apply G_same; reflexivity|]. eapply G_submit_graph; eassumption.
   - eapply G_open; eassumption.
   - eapply G_close; eassumption.
   - eapply G_cancel; eassumption.
